@@ -126,10 +126,17 @@ func destForms() []destForm {
 // responder classes of C04
 func responders(e *simEnv, ttl int) map[string]netip.Addr {
 	v6 := e.spec.V.V6
+	off := uniqueAddr(v6, 7000+ttl)
+	if ttl%2 == 0 {
+		// every other off-path host is a neighbour of the target: same /24 resp. /64, another interface identifier
+		b := e.spec.Target.AsSlice()
+		b[len(b)-1] ^= byte(1 + ttl%200)
+		off, _ = netip.AddrFromSlice(b)
+	}
 	return map[string]netip.Addr{
 		"target":         e.spec.Target,
 		"on-path-router": routerAddr(v6, 1, ttl),
-		"off-path-host":  uniqueAddr(v6, 7000+ttl),
+		"off-path-host":  off,
 		"local-address":  e.local,
 	}
 }
